@@ -256,15 +256,30 @@ def _build_probe(
             `assign` is still applied, because context updates are part of the
             computed next state rather than an external side effect.
             """
-            from .actions import ASSIGN, resolve_builtin
+            from .actions import ASSIGN, RAISE, resolve_builtin
 
             for action_def in actions or []:
                 recorded.append(action_def)
-                if resolve_builtin(action_def.type) == ASSIGN:
+                canonical = resolve_builtin(action_def.type)
+                if canonical == ASSIGN:
                     self._apply_assign(
                         self._resolve_params(action_def.params, event) or {},
                         event,
                     )
+                elif canonical == RAISE:
+                    # 📨 An undelayed `raise` feeds the machine's own queue and
+                    #    is therefore part of the computed next state, like
+                    #    `assign`: without it the follow-up transition the
+                    #    raised event triggers was missing from the result.
+                    params = (
+                        self._resolve_params(action_def.params, event) or {}
+                    )
+                    if not self._resolve_delay(params.get("delay"), event):
+                        self.send(
+                            self._resolve_event_spec(
+                                params.get("event"), event
+                            )
+                        )
 
         def _schedule_state_tasks(self, state: Any) -> None:
             """Suppresses timers and invoked services entirely."""
